@@ -215,6 +215,28 @@ pub proof fn lemma_non_null_type(s: Seq<SyntaxKind>)
 {
     assert(s.push(SyntaxKind::BANG).drop_last() =~= s);
 }
+
+/// C05 / C07 (necessary condition of grammar membership): how many brackets of each kind are open after the significant tokens `s`
+pub open spec fn open_brackets(s: Seq<SyntaxKind>) -> (int, int, int) decreases s.len() {
+    if s.len() == 0 { (0, 0, 0) } else {
+        let (c, p, b) = open_brackets(s.drop_last());
+        match s.last() {
+            SyntaxKind::L_CURLY => (c + 1, p, b), SyntaxKind::R_CURLY => (c - 1, p, b),
+            SyntaxKind::L_PAREN => (c, p + 1, b), SyntaxKind::R_PAREN => (c, p - 1, b),
+            SyntaxKind::L_BRACK => (c, p, b + 1), SyntaxKind::R_BRACK => (c, p, b - 1),
+            _ => (c, p, b),
+        }
+    }
+}
+pub broadcast proof fn lemma_open_brackets_push(s: Seq<SyntaxKind>, k: SyntaxKind)
+    ensures #[trigger] open_brackets(s.push(k)) == (match k {
+            SyntaxKind::L_CURLY => (open_brackets(s).0 + 1, open_brackets(s).1, open_brackets(s).2), SyntaxKind::R_CURLY => (open_brackets(s).0 - 1, open_brackets(s).1, open_brackets(s).2),
+            SyntaxKind::L_PAREN => (open_brackets(s).0, open_brackets(s).1 + 1, open_brackets(s).2), SyntaxKind::R_PAREN => (open_brackets(s).0, open_brackets(s).1 - 1, open_brackets(s).2),
+            SyntaxKind::L_BRACK => (open_brackets(s).0, open_brackets(s).1, open_brackets(s).2 + 1), SyntaxKind::R_BRACK => (open_brackets(s).0, open_brackets(s).1, open_brackets(s).2 - 1),
+            _ => open_brackets(s) })
+{
+    assert(s.push(k).drop_last() =~= s);
+}
 pub open spec fn sig_prefix(a: Seq<SyntaxKind>, b: Seq<SyntaxKind>) -> bool { a.len() <= b.len() && b.subrange(0, a.len() as int) =~= a }
 pub open spec fn cur_text(t: Option<Token>) -> Seq<char> { match t { Some(t) => t.data@, None => seq![] } }
 pub open spec fn is_prefix(a: Seq<char>, b: Seq<char>) -> bool { a.len() <= b.len() && b.subrange(0, a.len() as int) =~= a }
@@ -423,17 +445,21 @@ def G(file, name, clauses, **kw):
 
 GDIR = "crates/apollo-parser/src/parser/grammar/"
 TIDY_PRE = ("requires", "tidy", "old(p).tidy()")
-BCAST = ("body_start", None, "broadcast use lemma_conserved_trans_auto;")
+BCAST = ("body_start", None, "broadcast use lemma_conserved_trans_auto; broadcast use lemma_open_brackets_push;")
 # loop contracts for the inlined repetition loops: everything so far is conserved and no fuel was gained.
 #   gloop()              -- no progress claim
 #   gloop(cond)          -- the function consumed a token BEFORE the loop whenever `cond` held on entry (e.g. an opening bracket was bumped)
 #   gloop(cond, True)    -- nothing is consumed before the loop; whenever `cond` held on entry the FIRST iteration consumes a token
-def gloop(cond=None, first_iteration=False, extra=None, min_before=None, min_first=None, extra_ensures=None):
+def gloop(cond=None, first_iteration=False, extra=None, min_before=None, min_first=None, extra_ensures=None, balanced_at=(0, 0, 0), balanced_except_break=False, items_may_stop_at_eof=False):
     """min_before=K: K significant tokens were added before the loop whenever no error was reported;
     min_first=(K, cond): the first iteration adds K significant tokens whenever `cond` held on entry and no error was reported."""
     CLEAN = "p.clean_since(old(p)) && !p.eof_consumed()"
     inv = [("conserved", "p.conserved(old(p)), p.fuel() <= old(p).fuel()"),
            ("eof_stays_consumed", "old(p).eof_consumed() ==> p.eof_consumed()")]
+    inv_eb = []
+    if balanced_at is not None:
+        cond_b = CLEAN + (" && !p.at_kind(TokenKind::Eof)" if items_may_stop_at_eof else "")
+        (inv_eb if balanced_except_break else inv).append(("brackets_so_far", "(%s) ==> open_brackets(p.builder.sig()) == (open_brackets(old(p).builder.sig()).0 + %d, open_brackets(old(p).builder.sig()).1 + %d, open_brackets(old(p).builder.sig()).2 + %d)" % ((cond_b,) + tuple(balanced_at)), ["C05", "C07"]))
     ens = []
     if cond and not first_iteration:
         inv.append(("progress", "(%s) ==> p.fuel() < old(p).fuel()" % cond))
@@ -453,12 +479,17 @@ def gloop(cond=None, first_iteration=False, extra=None, min_before=None, min_fir
     if extra_ensures:
         ens += extra_ensures
     d = dict(invariant=inv, decreases="p.fuel()")
+    if inv_eb:
+        d["invariant_except_break"] = inv_eb
     if ens:
         d["ensures"] = ens
     return d
 
 
 EOF_STABLE = ("ensures", "eof_stays_consumed", "old(p).eof_consumed() ==> final(p).eof_consumed()")
+# C05 / C07: no error => every bracket opened by this production was closed by it
+BALANCED_UNLESS_EOF = ("ensures", "no_error_means_brackets_balanced_unless_at_end_of_input", "(final(p).clean_since(old(p)) && !final(p).eof_consumed() && !final(p).at_kind(TokenKind::Eof)) ==> open_brackets(final(p).builder.sig()) == open_brackets(old(p).builder.sig())", ["C05", "C07"])
+BALANCED = ("ensures", "no_error_means_brackets_balanced", "(final(p).clean_since(old(p)) && !final(p).eof_consumed()) ==> open_brackets(final(p).builder.sig()) == open_brackets(old(p).builder.sig())", ["C05", "C07"])
 
 
 def MIN_SIG(n, cond=None):
@@ -480,6 +511,9 @@ def GF(fname, name, progress=None, extra=None, **kw):
     if progress:
         cl.append(("ensures", "progress", "(%s) ==> final(p).fuel() < old(p).fuel()" % progress))
     cl.append(EOF_STABLE)
+    bal = kw.pop("balanced", True)
+    if bal:
+        cl.append(BALANCED_UNLESS_EOF if bal == "unless_eof" else BALANCED)
     ms = kw.pop("min_sig", None)
     if ms is not None:
         for m1 in (ms if isinstance(ms, list) else [ms]):
@@ -507,6 +541,7 @@ UNIT = {
     "name": "parser_core",
     "properties": ["C01", "C02", "C04", "C05", "C07"],
     "rlimit_retry": [60, 200],
+    "spinoff": True,
     "parts": [
         PRELUDE_1,
         dict(file="crates/apollo-parser/src/parser/generated/syntax_kind.rs", kind="enum", name="SyntaxKind",
@@ -643,47 +678,48 @@ UNIT = {
                   ("ensures", "consumes_lookahead", "old(self).current_token is Some ==> final(self).current_token is None && final(self).pending@.len() == 0 && final(self).lexer == old(self).lexer && final(self).builder.text() =~= old(self).builder.text() + pending_text(old(self).pending@) + old(self).current_token->0.data@"),
                   ("ensures", "nothing_to_consume", "old(self).current_token is None ==> final(self).current_token is None && final(self).lexer == old(self).lexer"),
                   ("ensures", "eof_not_consumed", "(!old(self).eof_consumed() && !(old(self).current_token is Some && old(self).current_token->0.kind is Eof)) ==> !final(self).eof_consumed()")],
-          hints=[("body_start", None, "broadcast use lemma_conserved_trans_auto;")]),
+          hints=[("body_start", None, "broadcast use lemma_conserved_trans_auto; broadcast use lemma_open_brackets_push;")]),
         P("bump", [WF, READY, ("ensures", "conserved", C),
                    ("ensures", "fuel", "final(self).fuel() <= old(self).fuel() && (old(self).current_token is Some ==> final(self).fuel() < old(self).fuel())"),
                    ("ensures", "stops_at_significant", "final(self).current_token is Some ==> !ignored_kind(final(self).current_token->0.kind)"),
                    ("ensures", "ready_again", "final(self).ready()"), ("ensures", "tidy", "final(self).tidy()"),
                    ("ensures", "eof_not_consumed", "(!old(self).eof_consumed() && !(old(self).current_token is Some && old(self).current_token->0.kind is Eof)) ==> !final(self).eof_consumed()"),
                    ("ensures", "significant_kinds", "final(self).builder.sig() == (if old(self).current_token is Some && !ignored_syntax(kind) { old(self).builder.sig().push(kind) } else { old(self).builder.sig() })")],
-          hints=[("body_start", None, "broadcast use lemma_conserved_trans_auto;")]),
+          hints=[("body_start", None, "broadcast use lemma_conserved_trans_auto; broadcast use lemma_open_brackets_push;")]),
         P("limit_err", [WF, ("ensures", "conserved", C), ("ensures", "fuel", F),
                         ("ensures", "limit_recorded", "final(self).current_token is Some ==> !final(self).accept_errors"),
                         ("ensures", "recorded_error_is_a_limit_error", "(old(self).accept_errors && old(self).current_token is Some) ==> final(self).errors@.len() == old(self).errors@.len() + 1 && final(self).errors@.last().is_limit", ["C04"]),
                         ("ensures", "limit_always_recorded_before_eof", "!old(self).eof_consumed() ==> !final(self).accept_errors"), ("ensures", "eof_not_consumed", "!old(self).eof_consumed() ==> !final(self).eof_consumed()"),
                         ("ensures", "tree_untouched", "final(self).builder == old(self).builder"), ("ensures", "tidy_kept", "old(self).tidy() ==> final(self).tidy()"), ("ensures", "ready_after", "final(self).ready()")],
           rewrites=[("pub fn limit_err<S: Into<String>>(&mut self, message: S)", "pub fn limit_err(&mut self, message: &str)", 1)],
-          hints=[("body_start", None, "broadcast use lemma_conserved_trans_auto;")]),
+          hints=[("body_start", None, "broadcast use lemma_conserved_trans_auto; broadcast use lemma_open_brackets_push;")]),
         P("err_at_token", [WF, ("ensures", "conserved", C), ("ensures", "fuel", "final(self).fuel() == old(self).fuel()"),
                            ("ensures", "frame", "final(self).current_token == old(self).current_token && final(self).builder == old(self).builder && final(self).pending == old(self).pending && final(self).lexer == old(self).lexer && final(self).accept_errors == old(self).accept_errors"),
                            ("ensures", "error_recorded", "old(self).accept_errors ==> final(self).errors@.len() == old(self).errors@.len() + 1")]),
         P("err", [WF, ("ensures", "conserved", C), ("ensures", "fuel", F), ("ensures", "tree_untouched", "final(self).builder == old(self).builder"),
                   ("ensures", "error_recorded", "(final(self).current_token is Some && final(self).accept_errors) ==> final(self).errors@.len() > old(self).errors@.len()"),
                   ("ensures", "lookahead_stable", "old(self).current_token is Some ==> final(self).current_token == old(self).current_token && final(self).lexer == old(self).lexer"), ("ensures", "tidy_kept", "old(self).tidy() ==> final(self).tidy()"), ("ensures", "ready_after", "final(self).ready()")],
-          hints=[("body_start", None, "broadcast use lemma_conserved_trans_auto;")]),
+          hints=[("body_start", None, "broadcast use lemma_conserved_trans_auto; broadcast use lemma_open_brackets_push;")]),
         P("err_and_pop", [WF, READY, ("ensures", "conserved", C),
                           ("ensures", "fuel", "final(self).fuel() <= old(self).fuel() && (old(self).current_token is Some ==> final(self).fuel() < old(self).fuel())"),
                           ("ensures", "ready_again", "final(self).ready()"), ("ensures", "tidy", "final(self).tidy()"),
                           ("ensures", "error_recorded", "(old(self).current_token is Some && old(self).accept_errors) ==> final(self).errors@.len() > old(self).errors@.len()")],
-          hints=[("body_start", None, "broadcast use lemma_conserved_trans_auto;")]),
+          hints=[("body_start", None, "broadcast use lemma_conserved_trans_auto; broadcast use lemma_open_brackets_push;")]),
         P("expect", [WF, ("ensures", "conserved", C), ("ensures", "fuel", F),
                      ("ensures", "consumes_the_expected_token_or_reports", "final(self).clean_since(old(self)) ==> final(self).builder.sig() == (if ignored_syntax(kind) { old(self).builder.sig() } else { old(self).builder.sig().push(kind) })"),
                      ("ensures", "adds_at_most_that_token", "final(self).builder.sig() == old(self).builder.sig() || final(self).builder.sig() == old(self).builder.sig().push(kind)"),
                      ("ensures", "eof_not_consumed", "(!old(self).eof_consumed() && !(token is Eof)) ==> !final(self).eof_consumed()"),
-                     ("ensures", "tidy_kept", "old(self).tidy() ==> final(self).tidy()"), ("ensures", "ready_after", "final(self).ready()"), ("ensures", "progress_when_at", "old(self).at_kind(token) ==> final(self).fuel() < old(self).fuel()")],
-          hints=[("body_start", None, "broadcast use lemma_conserved_trans_auto;")]),
+                     ("ensures", "tidy_kept", "old(self).tidy() ==> final(self).tidy()"), ("ensures", "ready_after", "final(self).ready()"), ("ensures", "progress_when_at", "old(self).at_kind(token) ==> final(self).fuel() < old(self).fuel()"),
+                     ("ensures", "mismatch_is_reported", "(old(self).current_token is Some && old(self).current_token->0.kind != token && old(self).accept_errors) ==> final(self).errors@.len() > old(self).errors@.len()")],
+          hints=[("body_start", None, "broadcast use lemma_conserved_trans_auto; broadcast use lemma_open_brackets_push;")]),
         P("start_node", [WF, ("ensures", "conserved", C), ("ensures", "fuel", F), KEEP, FLUSH, ("ensures", "ready", "final(self).ready()"), ("ensures", "eof_not_consumed", "!old(self).eof_consumed() ==> !final(self).eof_consumed()"), ("ensures", "no_significant_token_added", "final(self).builder.sig() == old(self).builder.sig()"), ("ensures", "tidy", "final(self).tidy()"),
                          ("ensures", "stops_at_significant", "final(self).current_token is Some ==> !ignored_kind(final(self).current_token->0.kind)")],
           rewrites=BORROW + [("NodeGuard::new(self.builder.clone())", "NodeGuard::new_shim()", 1), ("self.builder.borrow().is_at_root()", "self.builder.is_at_root()", 1)],
-          hints=[("body_start", None, "broadcast use lemma_conserved_trans_auto;")]),
+          hints=[("body_start", None, "broadcast use lemma_conserved_trans_auto; broadcast use lemma_open_brackets_push;")]),
         P("start_root_node", [WF, ("ensures", "conserved", C), ("ensures", "fuel", F), KEEP, FLUSH, ("ensures", "ready", "final(self).ready()"), ("ensures", "eof_not_consumed", "!old(self).eof_consumed() ==> !final(self).eof_consumed()"), ("ensures", "no_significant_token_added", "final(self).builder.sig() == old(self).builder.sig()"), ("ensures", "tidy", "final(self).tidy()"),
                               ("ensures", "stops_at_significant", "final(self).current_token is Some ==> !ignored_kind(final(self).current_token->0.kind)")],
           rewrites=BORROW + [("NodeGuard::new(self.builder.clone())", "NodeGuard::new_shim()", 1)],
-          hints=[("body_start", None, "broadcast use lemma_conserved_trans_auto;")]),
+          hints=[("body_start", None, "broadcast use lemma_conserved_trans_auto; broadcast use lemma_open_brackets_push;")]),
         P("checkpoint_node", [WF, ("ensures", "conserved", C), ("ensures", "fuel", "final(self).fuel() == old(self).fuel()"),
                               ("ensures", "frame", "final(self).current_token == old(self).current_token && final(self).lexer == old(self).lexer && final(self).errors == old(self).errors && final(self).builder.sig() == old(self).builder.sig()")],
           rewrites=[("self.builder.borrow().checkpoint()", "self.builder.checkpoint()", 1), ("Checkpoint::new(self.builder.clone(), checkpoint)", "Checkpoint::new_shim(checkpoint)", 1),
@@ -693,13 +729,13 @@ UNIT = {
                                   ("ensures", "no_new_error_only_at_end_of_input", "(final(self).errors@.len() == old(self).errors@.len() && final(self).accept_errors) ==> final(self).at_end()"),
                                   ("ensures", "end_means_exhausted", "final(self).current_token is None ==> (final(self).lexer.limited() || (final(self).lexer.done() && final(self).lexer.rest() =~= Seq::<char>::empty()))")],
           props=["C07"],
-          hints=[("body_start", None, "broadcast use lemma_conserved_trans_auto;")]),
+          hints=[("body_start", None, "broadcast use lemma_conserved_trans_auto; broadcast use lemma_open_brackets_push;")]),
     
         # ---------------- grammar functions that consume tokens directly ----------------
         dict(file=PM, kind="const", name="DEFAULT_RECURSION_LIMIT"),
         P("new", [("ensures", "initial_state", "r.wf() && r.all_text() =~= input@ && r.errors@.len() == 0 && r.recursion_limit.current == 0 && r.builder.text() =~= Seq::<char>::empty() && r.current_token is None && r.pending@.len() == 0 && !r.eof_consumed() && r.builder.sig() =~= Seq::<SyntaxKind>::empty()")],
           rewrites=[("Rc::new(RefCell::new(SyntaxTreeBuilder::new()))", "SyntaxTreeBuilder::new()", 1)], props=["C02", "C01"]),
-        G(TY, "parse", [GWF, EOF_STABLE,
+        G(TY, "parse", [GWF, BALANCED, EOF_STABLE,
             ("ensures", "lossless", "final(p).all_text() =~= old(p).all_text()", ["C02"]),
             ("ensures", "advanced", "final(p).advanced(old(p))"),
             ("ensures", "fuel", "final(p).fuel() <= old(p).fuel() && (res is Ok ==> final(p).fuel() < old(p).fuel())"),
@@ -709,7 +745,7 @@ UNIT = {
             ("decreases", None, "old(p).fuel()"),
           ], ret="res",
           hints=[
-              ("body_start", None, "broadcast use lemma_conserved_trans_auto;"),
+              ("body_start", None, "broadcast use lemma_conserved_trans_auto; broadcast use lemma_open_brackets_push;"),
               ("after", "p.bump(S!['[']);", "let ghost s3 = *p; proof { assert(s3.builder.sig() == old(p).builder.sig().push(SyntaxKind::L_BRACK)); }"),
               ("before", "let result = parse(p);", "let ghost s4 = *p; proof { assert(p.recursion_limit.current == old(p).recursion_limit.current + 1 && p.recursion_limit.current <= p.recursion_limit.limit); /* C01: nesting depth is bounded by the limit */ }"),
               ("after", "let result = parse(p);", "let ghost s5 = *p;"),
@@ -731,57 +767,58 @@ UNIT = {
               ("after", "p.eat(S![!]);", "proof { if p.clean_since(&*old(p)) { lemma_non_null_type(t1.new_sig(&*old(p))); assert(p.new_sig(&*old(p)) =~= t1.new_sig(&*old(p)).push(SyntaxKind::BANG)); } }"),
               ("before", "Ok(())\n}", "proof { if p.clean_since(&*old(p)) { lemma_non_null_type(t1.new_sig(&*old(p))); } }"),
           ]),
-        G(TY, "ty", [GWF, EOF_STABLE, MIN_SIG(1), ("ensures", "conserved", "final(p).conserved(old(p))"), ("ensures", "fuel", "final(p).fuel() <= old(p).fuel()")],
-          hints=[("body_start", None, "broadcast use lemma_conserved_trans_auto;")],
+        G(TY, "ty", [GWF, BALANCED, EOF_STABLE, MIN_SIG(1), ("ensures", "conserved", "final(p).conserved(old(p))"), ("ensures", "fuel", "final(p).fuel() <= old(p).fuel()")],
+          hints=[("body_start", None, "broadcast use lemma_conserved_trans_auto; broadcast use lemma_open_brackets_push;")],
           ),
-        G(TY, "named_type", [GWF, EOF_STABLE, MIN_SIG(1, "old(p).at_kind(TokenKind::Name)"), ("ensures", "conserved", "final(p).conserved(old(p))"), ("ensures", "fuel", "final(p).fuel() <= old(p).fuel()")],
-          hints=[("body_start", None, "broadcast use lemma_conserved_trans_auto;")]),
+        G(TY, "named_type", [GWF, BALANCED, EOF_STABLE, MIN_SIG(1, "old(p).at_kind(TokenKind::Name)"), ("ensures", "conserved", "final(p).conserved(old(p))"), ("ensures", "fuel", "final(p).fuel() <= old(p).fuel()")],
+          hints=[("body_start", None, "broadcast use lemma_conserved_trans_auto; broadcast use lemma_open_brackets_push;")]),
     
         # standalone type: leading ignored tokens stay queued and are attached inside the root node when it is started
         # (start_node / checkpoint_node are root-aware), so the text is conserved here too.
-        G(TY, "standalone_ty", [GWF, EOF_STABLE, ("requires", "fresh", "!old(p).eof_consumed()"),
+        G(TY, "standalone_ty", [GWF, BALANCED, EOF_STABLE, ("requires", "fresh", "!old(p).eof_consumed()"),
                                 ("ensures", "conserved_except_the_known_finding_of_parse", "final(p).advanced(old(p))"), ("ensures", "fuel", "final(p).fuel() <= old(p).fuel()"),
                                 ("ensures", "leading_ignored_tokens_are_kept", "final(p).all_text() =~= old(p).all_text()", ["C02", "C11"]),
                                 ("ensures", "missing_type_is_reported", "final(p).builder.nsig() == old(p).builder.nsig() ==> (final(p).errors@.len() > old(p).errors@.len() || !final(p).accept_errors)", ["C07"]),
                                 ("ensures", "no_error_means_exactly_one_type", "final(p).clean_since(old(p)) ==> g_type(final(p).new_sig(old(p)))", ["C07"])],
-          hints=[("body_start", None, "broadcast use lemma_conserved_trans_auto;"),
+          hints=[("body_start", None, "broadcast use lemma_conserved_trans_auto; broadcast use lemma_open_brackets_push;"),
                  ("after", "p.skip_ignored();", "let ghost s1 = *p;")]),
     
-        G(SEL, "selection_set", [GWF, EOF_STABLE, MIN_SIG(3, 'old(p).at_kind(TokenKind::LCurly)'), ("ensures", "conserved", "final(p).conserved(old(p))"), ("ensures", "fuel", "final(p).fuel() <= old(p).fuel()"),
+        G(SEL, "selection_set", [GWF, BALANCED, EOF_STABLE, MIN_SIG(3, 'old(p).at_kind(TokenKind::LCurly)'), ("ensures", "conserved", "final(p).conserved(old(p))"), ("ensures", "fuel", "final(p).fuel() <= old(p).fuel()"),
                                  ("ensures", "progress", "old(p).at_kind(TokenKind::LCurly) ==> final(p).fuel() < old(p).fuel()"), ("decreases", None, "old(p).fuel(), 1int")],
-          hints=[("body_start", None, "broadcast use lemma_conserved_trans_auto;")]),
-        G(SEL, "field_set", [GWF, EOF_STABLE, MIN_SIG(1), ("ensures", "conserved", "final(p).conserved(old(p))"), ("ensures", "fuel", "final(p).fuel() <= old(p).fuel()")],
-          hints=[("body_start", None, "broadcast use lemma_conserved_trans_auto;")]),
+          hints=[("body_start", None, "broadcast use lemma_conserved_trans_auto; broadcast use lemma_open_brackets_push;")]),
+        G(SEL, "field_set", [GWF, BALANCED, EOF_STABLE, MIN_SIG(1), ("ensures", "conserved", "final(p).conserved(old(p))"), ("ensures", "fuel", "final(p).fuel() <= old(p).fuel()")],
+          hints=[("body_start", None, "broadcast use lemma_conserved_trans_auto; broadcast use lemma_open_brackets_push;")]),
         dict(file=VAL, kind="enum", name="Constness", attrs="#[derive(Clone, Copy)]"),
-        G(VAL, "object_field", [GWF, EOF_STABLE, MIN_SIG(3), ("ensures", "conserved", "final(p).conserved(old(p))"),
+        G(VAL, "object_field", [GWF, BALANCED_UNLESS_EOF, EOF_STABLE, MIN_SIG(3), ("ensures", "conserved", "final(p).conserved(old(p))"),
                                 ("ensures", "fuel", "final(p).fuel() <= old(p).fuel() && ((old(p).current_token is Some && old(p).current_token->0.kind is Name) ==> final(p).fuel() < old(p).fuel())"),
                                 ("decreases", None, "old(p).fuel(), 1int")],
-          hints=[("body_start", None, "broadcast use lemma_conserved_trans_auto;")],
+          hints=[("body_start", None, "broadcast use lemma_conserved_trans_auto; broadcast use lemma_open_brackets_push;")],
           rewrites=[("p.recursion_limit.decrement()\n", "p.recursion_limit.decrement();\n", 1)]),
 
         # ---------------- the value cycle: value -> list_value -> value, value -> object_value -> object_field -> value ----------------
-        G(VAL, "enum_value", [GWF, ("ensures", "true_false_null_are_not_enum_values", '(old(p).at_kind(TokenKind::Name) && (old(p).current_token->0.data == "true" || old(p).current_token->0.data == "false" || old(p).current_token->0.data == "null")) ==> !(final(p).errors@.len() == old(p).errors@.len() && final(p).accept_errors)', ["C05"]), EOF_STABLE, MIN_SIG(1), ("ensures", "conserved", "final(p).conserved(old(p))"),
+        G(VAL, "enum_value", [GWF, BALANCED, ("ensures", "true_false_null_are_not_enum_values", '(old(p).at_kind(TokenKind::Name) && (old(p).current_token->0.data == "true" || old(p).current_token->0.data == "false" || old(p).current_token->0.data == "null")) ==> !(final(p).errors@.len() == old(p).errors@.len() && final(p).accept_errors)', ["C05"]), EOF_STABLE, MIN_SIG(1), ("ensures", "conserved", "final(p).conserved(old(p))"),
                               ("ensures", "fuel", "final(p).fuel() <= old(p).fuel() && ((old(p).current_token is Some && old(p).current_token->0.kind is Name) ==> final(p).fuel() < old(p).fuel())")],
-          hints=[("body_start", None, "broadcast use lemma_conserved_trans_auto;")]),
-        G(VAL, "default_value", [GWF, EOF_STABLE, MIN_SIG(2), ("requires", "significant_lookahead", "old(p).current_token is Some && !ignored_kind(old(p).current_token->0.kind)"), ("ensures", "conserved", "final(p).conserved(old(p))"), ("ensures", "fuel", "final(p).fuel() <= old(p).fuel()")],
-          hints=[("body_start", None, "broadcast use lemma_conserved_trans_auto;")]),
-        G(VAL, "value", [GWF, EOF_STABLE, MIN_SIG(1), ("ensures", "conserved", "final(p).conserved(old(p))"),
+          hints=[("body_start", None, "broadcast use lemma_conserved_trans_auto; broadcast use lemma_open_brackets_push;")]),
+        G(VAL, "default_value", [GWF, BALANCED_UNLESS_EOF, EOF_STABLE, MIN_SIG(2), ("requires", "significant_lookahead", "old(p).current_token is Some && !ignored_kind(old(p).current_token->0.kind)"), ("ensures", "conserved", "final(p).conserved(old(p))"), ("ensures", "fuel", "final(p).fuel() <= old(p).fuel()")],
+          hints=[("body_start", None, "broadcast use lemma_conserved_trans_auto; broadcast use lemma_open_brackets_push;")]),
+        G(VAL, "value", [GWF, BALANCED_UNLESS_EOF, EOF_STABLE, MIN_SIG(1), ("ensures", "conserved", "final(p).conserved(old(p))"),
                          ("ensures", "fuel", "final(p).fuel() <= old(p).fuel() && ((pop_on_error && old(p).current_token is Some) ==> final(p).fuel() < old(p).fuel())"),
                          ("decreases", None, "old(p).fuel(), 2int")],
-          hints=[("body_start", None, "broadcast use lemma_conserved_trans_auto;")]),
-        G(VAL, "list_value", [GWF, EOF_STABLE, MIN_SIG(1), MIN_SIG(2, "!final(p).at_kind(TokenKind::Eof)"), ("requires", "significant_lookahead", "old(p).current_token is Some && !ignored_kind(old(p).current_token->0.kind)"), ("ensures", "conserved", "final(p).conserved(old(p))"),
+          hints=[("body_start", None, "broadcast use lemma_conserved_trans_auto; broadcast use lemma_open_brackets_push;")]),
+        G(VAL, "list_value", [GWF, ("ensures", "no_error_means_brackets_balanced_unless_at_end_of_input", "(final(p).clean_since(old(p)) && !final(p).eof_consumed() && !final(p).at_kind(TokenKind::Eof)) ==> open_brackets(final(p).builder.sig()) == open_brackets(old(p).builder.sig())", ["C05", "C07"]), EOF_STABLE, MIN_SIG(1), MIN_SIG(2, "!final(p).at_kind(TokenKind::Eof)"), ("requires", "significant_lookahead", "old(p).current_token is Some && !ignored_kind(old(p).current_token->0.kind)"), ("ensures", "conserved", "final(p).conserved(old(p))"),
                               ("ensures", "fuel", "final(p).fuel() <= old(p).fuel() && (old(p).current_token is Some ==> final(p).fuel() < old(p).fuel())"),
                               ("decreases", None, "old(p).fuel(), 1int")],
           inline_combinators=1, n_loops=1,
-          loops=[gloop(LOOK, min_before=1, extra=[("strictly_below_entry", "p.fuel() < old(p).fuel()")],
-                       extra_ensures=[("closed_or_at_end_of_input", "(p.clean_since(old(p)) && !p.eof_consumed() && !p.at_kind(TokenKind::Eof)) ==> p.builder.nsig() >= old(p).builder.nsig() + 2", ["C05"])])],
-          hints=[("body_start", None, "broadcast use lemma_conserved_trans_auto;")]),
-        G(VAL, "object_value", [GWF, EOF_STABLE, MIN_SIG(2), ("requires", "significant_lookahead", "old(p).current_token is Some && !ignored_kind(old(p).current_token->0.kind)"), ("ensures", "conserved", "final(p).conserved(old(p))"),
+          loops=[gloop(LOOK, min_before=1, extra=[("strictly_below_entry", "p.fuel() < old(p).fuel()")], balanced_at=(0, 0, 1), balanced_except_break=True,
+                       extra_ensures=[("brackets_closed_or_at_end_of_input", "(p.clean_since(old(p)) && !p.eof_consumed() && !p.at_kind(TokenKind::Eof)) ==> open_brackets(p.builder.sig()) == open_brackets(old(p).builder.sig())", ["C05", "C07"]),
+                                      ("closed_or_at_end_of_input", "(p.clean_since(old(p)) && !p.eof_consumed() && !p.at_kind(TokenKind::Eof)) ==> p.builder.nsig() >= old(p).builder.nsig() + 2", ["C05"])], items_may_stop_at_eof=True)],
+          hints=[("body_start", None, "broadcast use lemma_conserved_trans_auto; broadcast use lemma_open_brackets_push;")]),
+        G(VAL, "object_value", [GWF, BALANCED, EOF_STABLE, MIN_SIG(2), ("requires", "significant_lookahead", "old(p).current_token is Some && !ignored_kind(old(p).current_token->0.kind)"), ("ensures", "conserved", "final(p).conserved(old(p))"),
                                 ("ensures", "fuel", "final(p).fuel() <= old(p).fuel() && (old(p).current_token is Some ==> final(p).fuel() < old(p).fuel())"),
                                 ("decreases", None, "old(p).fuel(), 1int")],
           inline_combinators=1, n_loops=1,
-          loops=[gloop(LOOK, min_before=1, extra=[("strictly_below_entry", "p.fuel() < old(p).fuel()")])],
-          hints=[("body_start", None, "broadcast use lemma_conserved_trans_auto;")]),
+          loops=[gloop(LOOK, min_before=1, extra=[("strictly_below_entry", "p.fuel() < old(p).fuel()")], balanced_at=(1, 0, 0), items_may_stop_at_eof=True)],
+          hints=[("body_start", None, "broadcast use lemma_conserved_trans_auto; broadcast use lemma_open_brackets_push;")]),
 
 
         # ---------------- the executable half of the grammar ----------------
@@ -790,10 +827,10 @@ UNIT = {
                   ("ensures", "ready_after", "final(p).ready()")]),
         GF("name.rs", "alias", min_sig=2, progress=LOOK),
         GF("variable.rs", "variable", min_sig=2, progress=LOOK),
-        GF("variable.rs", "variable_definition", min_sig=4, progress=LOOK),
-        GF("variable.rs", "variable_definitions", min_sig=6, progress=LOOK, inline_combinators=1, n_loops=1, loops=[gloop(LOOK, min_before=5)]),
-        GF("argument.rs", "argument", min_sig=3, progress=AT("Name")),
-        GF("argument.rs", "arguments", min_sig=5, progress=LOOK, inline_combinators=1, n_loops=1, loops=[gloop(LOOK, min_before=4)]),
+        GF("variable.rs", "variable_definition", balanced="unless_eof", min_sig=4, progress=LOOK),
+        GF("variable.rs", "variable_definitions", min_sig=6, progress=LOOK, inline_combinators=1, n_loops=1, loops=[gloop(LOOK, min_before=5, balanced_at=(0, 1, 0), items_may_stop_at_eof=True)]),
+        GF("argument.rs", "argument", balanced="unless_eof", min_sig=3, progress=AT("Name")),
+        GF("argument.rs", "arguments", min_sig=5, progress=LOOK, inline_combinators=1, n_loops=1, loops=[gloop(LOOK, min_before=4, balanced_at=(0, 1, 0), items_may_stop_at_eof=True)]),
         GF("directive.rs", "directive", min_sig=2, progress=AT("At")),
         GF("directive.rs", "directives", progress=AT("At"), min_sig=(2, AT("At")), inline_combinators=1, n_loops=1, loops=[gloop(AT("At"), True, min_first=(2, AT("At")))]),
         GF("field.rs", "field", min_sig=1, progress=AT("Name"), decreases="old(p).fuel(), 2int"),
@@ -812,16 +849,16 @@ UNIT = {
 
         # ---------------- the type-system half of the grammar ----------------
         GF("description.rs", "description", min_sig=1, progress=LOOK),
-        GF("argument.rs", "arguments_definition", min_sig=5, progress=LOOK, inline_combinators=1, n_loops=1, loops=[gloop(LOOK, min_before=4)]),
-        GF("field.rs", "fields_definition", min_sig=5, progress=LOOK, inline_combinators=1, n_loops=1, loops=[gloop(LOOK, min_before=4)]),
+        GF("argument.rs", "arguments_definition", min_sig=5, progress=LOOK, inline_combinators=1, n_loops=1, loops=[gloop(LOOK, min_before=4, balanced_at=(0, 1, 0), items_may_stop_at_eof=True)]),
+        GF("field.rs", "fields_definition", min_sig=5, progress=LOOK, inline_combinators=1, n_loops=1, loops=[gloop(LOOK, min_before=4, balanced_at=(1, 0, 0))]),
         GF("field.rs", "field_definition", min_sig=3, progress=NS),
         GF("input.rs", "input_object_type_definition", min_sig=[(2, KW("input")), (1, AT("StringValue"))], progress=NS),
         GF("input.rs", "input_object_type_extension", min_sig=5, progress=LOOK),
-        GF("input.rs", "input_fields_definition", min_sig=5, progress=LOOK, inline_combinators=1, n_loops=1, loops=[gloop(LOOK, min_before=4)]),
-        GF("input.rs", "input_value_definition", min_sig=3, progress=NS),
+        GF("input.rs", "input_fields_definition", min_sig=5, progress=LOOK, inline_combinators=1, n_loops=1, loops=[gloop(LOOK, min_before=4, balanced_at=(1, 0, 0), items_may_stop_at_eof=True)]),
+        GF("input.rs", "input_value_definition", balanced="unless_eof", min_sig=3, progress=NS),
         GF("enum_.rs", "enum_type_definition", min_sig=[(2, KW("enum")), (1, AT("StringValue"))], progress=NS),
         GF("enum_.rs", "enum_type_extension", min_sig=5, progress=LOOK),
-        GF("enum_.rs", "enum_values_definition", min_sig=3, progress=LOOK, inline_combinators=1, n_loops=1, loops=[gloop(LOOK, min_before=2)]),
+        GF("enum_.rs", "enum_values_definition", min_sig=3, progress=LOOK, inline_combinators=1, n_loops=1, loops=[gloop(LOOK, min_before=2, balanced_at=(1, 0, 0))]),
         GF("enum_.rs", "enum_value_definition", min_sig=(1, NS), progress=NS),
         GF("union_.rs", "union_type_definition", min_sig=[(2, KW("union")), (1, AT("StringValue"))], progress=NS),
         GF("union_.rs", "union_type_extension", min_sig=5, progress=LOOK),
@@ -834,12 +871,12 @@ UNIT = {
         GF("schema.rs", "root_operation_type_definition", min_sig=3, progress=LOOK),
         GF("schema.rs", "schema_definition", min_sig=[(6, KW("schema")), (1, AT("StringValue"))], progress=SCHEMA_START, inline_combinators=1, n_loops=1,
            loops=[gloop(SCHEMA_START, min_before=[(2, KW("schema")), (1, AT("StringValue"))],
-                        extra=[("a_root_operation_means_three_tokens", "has_root_operation_types ==> ((p.clean_since(old(p)) && !p.eof_consumed() && (%s)) ==> p.builder.nsig() >= old(p).builder.nsig() + 5)" % KW("schema"), ["C05"])])]),
+                        extra=[("a_root_operation_means_three_tokens", "has_root_operation_types ==> ((p.clean_since(old(p)) && !p.eof_consumed() && (%s)) ==> p.builder.nsig() >= old(p).builder.nsig() + 5)" % KW("schema"), ["C05"])], balanced_at=(1, 0, 0))]),
         GF("schema.rs", "schema_extension", min_sig=4, progress=LOOK, inline_combinators=1, n_loops=1,
-           loops=[gloop(LOOK, min_before=3, extra=[("requirements_met_means_four_tokens", "meets_requirements ==> ((p.clean_since(old(p)) && !p.eof_consumed()) ==> p.builder.nsig() >= old(p).builder.nsig() + 4)", ["C05"])])]),
+           loops=[gloop(LOOK, min_before=3, extra=[("requirements_met_means_four_tokens", "meets_requirements ==> ((p.clean_since(old(p)) && !p.eof_consumed()) ==> p.builder.nsig() >= old(p).builder.nsig() + 4)", ["C05"])], balanced_at=(1, 0, 0))]),
         GF("scalar.rs", "scalar_type_definition", min_sig=[(2, KW("scalar")), (1, AT("StringValue"))], progress=NS),
         GF("scalar.rs", "scalar_type_extension", min_sig=5, progress=LOOK),
-        GF("directive.rs", "directive_definition", min_sig=[(5, KW("directive")), (1, AT("StringValue"))], progress=NS, inline_combinators=1, n_loops=1, loops=[gloop(NS, min_before=[(3, KW("directive")), (1, AT("StringValue"))])]),
+        GF("directive.rs", "directive_definition", min_sig=[(5, KW("directive")), (1, AT("StringValue"))], progress=NS, inline_combinators=1, n_loops=1, loops=[gloop(NS, min_before=[(3, KW("directive")), (1, AT("StringValue"))], balanced_at=(0, 1, 0), items_may_stop_at_eof=True)]),
         GF("directive.rs", "directive_location", min_sig=1),
         GF("directive.rs", "directive_locations", min_sig=1, inline_combinators=1, n_loops=1, loops=[gloop(min_before=1)]),
         GF("extensions.rs", "extensions", min_sig=4, progress=LOOK, extra=[("requires", "lookahead_present_or_lexer_exhausted", "old(p).ready()")]),
@@ -856,7 +893,8 @@ UNIT = {
                   ("ensures", "whole_input_consumed_unless_token_limit", "!final(p).lexer.limited() ==> cur_text(final(p).current_token) =~= Seq::<char>::empty() && final(p).lexer.rest() =~= Seq::<char>::empty()", ["C02"])],
            rewrites=[(r'assert_eq!\(\s*p\.recursion_limit\.current,\s*0,\s*"unbalanced limit increment / decrement"\s*\);', "assert!(p.recursion_limit.current == 0);", 1, "re")],
            inline_combinators=1, n_loops=1,
-           loops=[dict(invariant=[("conserved", "p.conserved(old(p)), p.fuel() <= old(p).fuel()"), ("eof_stays_consumed", "old(p).eof_consumed() ==> p.eof_consumed()"), ("recursion_bookkeeping_balanced", "p.recursion_limit.current == 0", ["C01", "C04"])],
+           loops=[dict(invariant=[("conserved", "p.conserved(old(p)), p.fuel() <= old(p).fuel()"), ("eof_stays_consumed", "old(p).eof_consumed() ==> p.eof_consumed()"),
+                                  ("brackets_so_far", "(p.clean_since(old(p)) && !p.eof_consumed()) ==> open_brackets(p.builder.sig()) == open_brackets(old(p).builder.sig())", ["C05"]), ("recursion_bookkeeping_balanced", "p.recursion_limit.current == 0", ["C01", "C04"])],
                        ensures=[("whole_input_consumed_unless_token_limit", "!p.lexer.limited() ==> cur_text(p.current_token) =~= Seq::<char>::empty() && p.lexer.rest() =~= Seq::<char>::empty()")],
                        decreases="p.fuel()")]),
         P("parse", [("requires", "wf", "self_in.wf()"),
